@@ -107,8 +107,11 @@ THEOREMS = [
 ASSUMPTIONS = [
     "PARTIAL: 'no RecursionError within the supported depth' is about CPython's stack (1000 frames): measured at "
     "n ∈ {399,400,401,900} (values) and up to 20000 (variables, degree, gradient), not proved",
-    "right-deep trees deeper than the recursion limit are outside the property ('accumulated term by term'): the "
-    "left-spine estimates do not see them",
+    "right-deep ACCUMULATIONS (t ∘ (t ∘ (t ∘ …))) deeper than the recursion limit are outside the property ('accumulated term "
+    "by term'): the left-spine estimates do not see them; a left-deep accumulation under a short wrapper (K − acc, K / acc, "
+    "k·(K − acc)) is inside it (family deep-wrapped; F36 / F36b were found there and fixed in /repo)",
+    "the `except RecursionError` fall-backs of gradient() and get_all_variables() are about CPython's stack and not modelled: "
+    "both arms compute the same result (gradIter_eq, varsIter theorems), so the model's switch describes either",
     "the explicit-stack variable traversal is proved on trees (every position its own object); the gradient "
     "traversal on every DAG with consistent identities",
     "re-association of the meaning is proved over ℝ; in doubles the builds differ by rounding (tested tolerance "
@@ -711,6 +714,16 @@ def run(ctx) -> core.Report:
         else:
             rep.nontrivial.add(("wrapped", fam, fam2, w, n))
     rep.histogram["wall_wrapped_s"] = round(time.time() - t_start, 1)
+    # ---- the accumulation on the right of a short wrapper, above the depth the recursive algorithms survive
+    for w, op, n, fseed, consumers in deep_wrapped_plan(rng, thorough):
+        r = deep_wrapped_case(w, op, n, fseed, consumers)
+        rep.histogram["deep-wrapped"] = rep.histogram.get("deep-wrapped", 0) + 1
+        rep.histogram[f"deep-wrapped:{w}:{n}"] = rep.histogram.get(f"deep-wrapped:{w}:{n}", 0) + 1
+        if r is not None:
+            fails.append(r)
+        else:
+            rep.nontrivial.add(("deep-wrapped", w, op, n))
+    rep.histogram["wall_deep_wrapped_s"] = round(time.time() - t_start, 1)
     # ---- deep linear accumulations through every walker of the LP route
     for kind, shape, wrapper, n, nvars, fseed, methods in lp_route_plan(rng, thorough):
         r = lp_route_case(kind, shape, wrapper, n, nvars, fseed, methods)
@@ -1288,6 +1301,93 @@ def wrapped_plan(rng, thorough):
         out.append((rng.choice(["dot(x,x)", "c@x", "ps3", "us:exp", "x.sum()", "us:log"]), "x.sum()",
                     rng.choice(["K-S", "K+S", "S-K", "k*(K-S)", "-S"]), 401 if thorough else 100,
                     rng.randint(0, 2 ** 31 - 1), False, None if thorough else rng.choice([3, 0])))
+    return out
+
+
+# ---- a long accumulation hanging off the RIGHT of a short wrapper (K − acc, K + acc, K / acc, k·(K − acc), …): the left-spine
+#      depth estimates report 1 or 2 for these trees, so the recursive algorithms are chosen at default thresholds (F36)
+DEEP_WRAPS = ["K-S", "K+S", "K/S", "k*(K-S)", "K-(S+K2)", "(K-S)-K2", "-(K-S)", "K-k*S", "sqrt(K+S)"]
+
+
+def deep_wrapped_case(w, op, n, fseed, consumers):
+    """None, or a failure dict: gradient / variable discovery / degree of  wrapper(acc)  for a term-by-term accumulation acc of n
+    scalar terms answer (no RecursionError) and agree with the values the harness computes alongside"""
+    import optyx.core.autodiff as AD
+    from optyx import Problem, Variable
+    from optyx.core.expressions import get_all_variables
+
+    rng = core.Rng(fseed)
+    nv = rng.choice([3, 7, n])
+    xs = [Variable(f"d{j}") for j in range(nv)]
+    pt = {v.name: rng.randint(1, 7) / 8 + 0.5 for v in xs}
+    K, K2, k = rng.choice([7.5, 12.25]), rng.choice([0.5, 2.0]), rng.choice([2.0, -0.5])
+    coef = {v.name: 0.0 for v in xs}
+    acc, S = None, 0.0
+    for i in range(n):
+        v = xs[i % nv]
+        c = rng.choice([0.25, 0.5, 1.0, 1.5])
+        t = v * c if i % 3 else c * v
+        sg = -1.0 if (op == "-" and i > 0) else 1.0
+        acc = t if acc is None else ((acc - t) if op == "-" else (acc + t))
+        coef[v.name] += sg * c
+        S += sg * c * pt[v.name]
+    base = {"family": "deep-wrapped", "wrapper": w, "op": op, "n": n, "seed": fseed, "consumers": list(consumers)}
+    if w == "K/S":
+        if abs(S) < 0.5:
+            return None
+        e, dW = K / acc, -K / (S * S)
+    elif w == "sqrt(K+S)":
+        if K + S < 0.5:
+            return None
+        from optyx import sqrt
+        e, dW = sqrt(K + acc), 0.5 / (K + S) ** 0.5
+    else:
+        e, a = wrap(w, acc, None, K, K2, k)
+        dW = a
+    names = sorted(nm for nm in coef if True)
+    used = sorted({xs[i % nv].name for i in range(n)})
+
+    def bad(what, **kw):
+        return dict(base, what=f"{what}: {w} around a {n}-term accumulation ({op})", **kw)
+
+    if "gradient" in consumers:
+        for u in (xs[0], xs[min(nv, n) - 1], Variable("absent")):
+            g, err = guarded(lambda: AD.gradient(e, u))
+            if err:
+                return bad(f"gradient() raised {err}", wrt=u.name)
+            if u.name == "absent":
+                if not is_literal_zero(g):
+                    return bad("gradient w.r.t. an absent variable is not the literal 0", wrt=u.name)
+                continue
+            gv = grad_value(g, pt)
+            want = dW * coef[u.name]
+            if gv is not None and not close(gv, want, max(1.0, abs(want)), rtol=1e-7):
+                return bad("gradient() differs from the hand-computed derivative", wrt=u.name, got=gv, want=want)
+    if "variables" in consumers:
+        got, err = guarded(lambda: sorted(u.name for u in get_all_variables(e)))
+        if err or got != used:
+            return bad("get_all_variables is not the set of the variables of the terms", got=err or f"{len(got)} variables", want=len(used))
+        for where, mk in (("objective", lambda: Problem().minimize(e)), ("constraint", lambda: Problem().minimize(xs[0]).subject_to(e <= 1.0))):
+            got, err = guarded(lambda: sorted(u.name for u in mk().variables))
+            if err or got != used:
+                return bad(f"Problem.variables with the formula as {where} is not the set of the variables of the terms",
+                           got=err or f"{len(got)} variables", want=len(used))
+    if "degree" in consumers:
+        d = read_degree(e)
+        if d[0] == "raise":
+            return bad(f"degree / is_linear raised {d[1]}")
+        if w not in ("K/S", "sqrt(K+S)") and d[1] is not True:
+            return bad("an affine wrapper around a linear accumulation is not classified linear", got=d)
+    return None
+
+
+def deep_wrapped_plan(rng, thorough):
+    out = []
+    ws = list(DEEP_WRAPS)
+    rng.shuffle(ws)
+    for i, w in enumerate(ws if thorough else ws[:4]):
+        n = [520, 900, 5000, 20000][i % 4] if thorough else [520, 900, 5000, 900][i % 4]
+        out.append((w, rng.choice(["+", "-"]), n, rng.randint(0, 2 ** 31 - 1), ["gradient", "variables", "degree"]))
     return out
 
 
@@ -2145,6 +2245,12 @@ def search(ctx, rep):
                         None if deep else rng.choice([0, 3, None]), ctx["seed"] * 1000 + i, True)
         if r is not None:
             return r
+    # (1c) accumulations on the right of a short wrapper
+    for i in range(18):
+        r = deep_wrapped_case(DEEP_WRAPS[i % len(DEEP_WRAPS)], "+-"[i % 2], [520, 900, 5000][i % 3], ctx["seed"] * 77 + i,
+                              ["gradient", "variables", "degree"])
+        if r is not None:
+            return r
     # (2) the families around them, then everything
     U = gen.Universe(rng)
     fams, _ = families(U, rng)
@@ -2169,6 +2275,10 @@ def replay(payload) -> bool:
         r = labels_case(f["model"], f["profile"], f["op"], f["wrapper"], int(f["n"]),
                         None if f.get("thr") in (None, "None") else int(f["thr"]), int(f["seed"]), bool(f["solve"]))
         print("labels_case:", r)
+        return r is None
+    if f.get("family") == "deep-wrapped":
+        r = deep_wrapped_case(f["wrapper"], f["op"], int(f["n"]), int(f["seed"]), list(f["consumers"]))
+        print("deep_wrapped_case:", r)
         return r is None
     if f.get("family") == "lifetime":
         r = lifetime_case(f["fam"], f["op"], int(f["n"]), int(f["seed"]), int(f.get("rounds", 5)))
